@@ -47,6 +47,12 @@ struct Cfg {
     ext: Option<Ext>,
     /// the sibling subcommand is a user-defined `help` (generated help subcommand disabled)
     user_help: bool,
+    /// root: error-ignoring + a required option that is never given (the swallowed error is raised
+    /// after the subcommands were parsed; chain, locals and globals must be as without it)
+    ignored_error: bool,
+    /// root: subcommand_precedence_over_arg + a multi-value positional that has taken one value
+    /// before the first step
+    precedence: bool,
 }
 
 impl Cfg {
@@ -54,7 +60,7 @@ impl Cfg {
         if self.user_help { "help" } else { "sx" }
     }
     fn name(&self) -> String {
-        format!("naming={:?} global={:?}@{} ext={:?}{}", self.naming, self.gkind, self.def_level, self.ext, if self.user_help { " sibling=user-defined help" } else { "" })
+        format!("naming={:?} global={:?}@{} ext={:?}{}", self.naming, self.gkind, self.def_level, self.ext, if self.user_help { " sibling=user-defined help" } else if self.ignored_error { " root error ignored" } else if self.precedence { " precedence over a collecting positional" } else { "" })
     }
     fn global_arg(&self) -> ArgSpec {
         let mut g = match self.gkind {
@@ -118,6 +124,18 @@ impl Cfg {
         sa.subs.push(sb);
         root.subs.push(sa);
         root.subs.push(sx);
+        if self.ignored_error {
+            root.set(Setting::IgnoreErrors);
+            let mut need = ArgSpec::opt("need", None, Some("need"));
+            need.required = true;
+            root.args.push(need);
+        }
+        if self.precedence {
+            root.set(Setting::SubcommandPrecedenceOverArg);
+            let mut files = ArgSpec::pos("files", 1);
+            files.num_args = Some((1, None));
+            root.args.push(files);
+        }
         if self.naming == Naming::Inferred {
             root.set(Setting::InferSubcommands);
             root.set(Setting::InferLongArgs);
@@ -279,6 +297,10 @@ fn lines(c: &Cfg, max_chain: usize, thorough: bool) -> Vec<Line> {
                         tokens.push(q);
                     }
                     argv.extend(tokens);
+                    if level == 0 && c.precedence {
+                        // one value for the collecting positional, right before the first step
+                        argv.push(b"f1".to_vec());
+                    }
                     locals.push((lv.p, lv.q));
                     globals.push(gvals);
                     desc.push_str(&format!("L{}[p={} q={} g={}{}] ", level, lv.p, lv.q, lv.g, if lv.clustered { " clustered" } else { "" }));
@@ -462,9 +484,11 @@ fn cfgs() -> Vec<Cfg> {
         for gkind in GKINDS {
             for def_level in [0usize, 1] {
                 for ext in [None, Some(Ext::Str), Some(Ext::Os)] {
-                    v.push(Cfg { naming, gkind, def_level, ext, user_help: false });
+                    v.push(Cfg { naming, gkind, def_level, ext, user_help: false, ignored_error: false, precedence: false });
                     if naming == Naming::Name && ext.is_none() {
-                        v.push(Cfg { naming, gkind, def_level, ext, user_help: true });
+                        v.push(Cfg { naming, gkind, def_level, ext, user_help: true, ignored_error: false, precedence: false });
+                        v.push(Cfg { naming, gkind, def_level, ext, user_help: false, ignored_error: true, precedence: false });
+                        v.push(Cfg { naming, gkind, def_level, ext, user_help: false, ignored_error: false, precedence: true });
                     }
                 }
             }
@@ -474,7 +498,7 @@ fn cfgs() -> Vec<Cfg> {
 }
 
 fn cfg_json(c: &Cfg) -> Value {
-    json!({"naming": format!("{:?}", c.naming), "gkind": format!("{:?}", c.gkind), "def_level": c.def_level, "ext": c.ext.map(|e| format!("{:?}", e)), "user_help": c.user_help})
+    json!({"naming": format!("{:?}", c.naming), "gkind": format!("{:?}", c.gkind), "def_level": c.def_level, "ext": c.ext.map(|e| format!("{:?}", e)), "user_help": c.user_help, "ignored_error": c.ignored_error, "precedence": c.precedence})
 }
 fn cfg_from(v: &Value) -> Option<Cfg> {
     Some(Cfg {
@@ -487,6 +511,8 @@ fn cfg_from(v: &Value) -> Option<Cfg> {
             _ => None,
         },
         user_help: v["user_help"].as_bool().unwrap_or(false),
+        ignored_error: v["ignored_error"].as_bool().unwrap_or(false),
+        precedence: v["precedence"].as_bool().unwrap_or(false),
     })
 }
 
